@@ -486,3 +486,64 @@ def option_desc(W, bv, t, names=None):
         else:
             out.add("?" + terms.render(bv, l[1], W, names or {}))
     return "|".join(sorted(out))
+
+
+def await_callee(W, bv, t):
+    """t = the value of `<local async fn>(args).await`  ->  (coroutine BV, [argument terms in bv]); else None.
+    In terms an await is poll(new_unchecked(&mut into_future(f(args))), cx)@Ready.0."""
+    from .core import BV
+    x = _unref(t)
+    if not (x[0] == "field" and _unref(x[1])[0] == "downcast" and _unref(x[1])[2] == "Ready"):
+        return None
+    p = _unref(_unref(x[1])[1])
+    if not (p[0] == "call" and lib.norm(p[1]).split("::")[-1] in ("poll",) and p[2]):
+        return None
+    r = _unref(p[2][0])
+    for _ in range(6):
+        if r[0] == "call" and lib.norm(r[1]).split("::")[-1] in ("new_unchecked", "into_future", "new", "as_mut") and r[2]:
+            r = _unref(r[2][0])
+        else:
+            break
+    if r[0] != "call" or len(r) < 4 or not isinstance(r[3], int) or r[3] >= len(bv.blocks):
+        return None
+    term = bv.blocks[r[3]]["t"]
+    if term.get("k") != "call" or term.get("callee") != r[1]:
+        return None
+    cid = term.get("resolved_id") or term.get("callee_id")
+    cb = W.by_id.get((cid or "") + "::{closure#0}")
+    if cid not in W.by_id or cb is None or cb.get("kind") != "coroutine":
+        return None
+    return BV.of(cb), list(r[2])
+
+
+def async_return(W, cv, args, term=None):
+    """The return value of the async fn body cv (or another of its terms) with its captured parameters replaced by the
+    caller's argument terms."""
+    def sub(t):
+        if isinstance(t, list):
+            return [sub(x) for x in t]
+        if not isinstance(t, tuple):
+            return t
+        i = lib.async_upvar_param_index(W, cv, t) if t and t[0] in ("field", "deref", "ref") else None
+        if i is not None and i - 1 < len(args):
+            return args[i - 1]
+        return tuple(sub(x) if isinstance(x, (tuple, list)) else x for x in t)
+    from . import terms as _terms
+    return simplify(sub(_terms.annotate_names(cv, cv.trace_local(0) if term is None else term)))
+
+
+def inline_awaits(W, bv, t, depth=0):
+    """Replace every `<private local async fn>(args).await` inside t by the callee's return value."""
+    if depth > 6:
+        return t
+    if isinstance(t, list):
+        return [inline_awaits(W, bv, x, depth) for x in t]
+    if not isinstance(t, tuple):
+        return t
+    ac = await_callee(W, bv, t)
+    if ac is not None:
+        cv, args = ac
+        wb = W.by_id.get(cv.body.get("parent"))
+        if wb is not None and not wb.get("pub"):
+            return inline_awaits(W, cv, async_return(W, cv, [inline_awaits(W, bv, a, depth + 1) for a in args]), depth + 1)
+    return tuple(inline_awaits(W, bv, x, depth) if isinstance(x, (tuple, list)) else x for x in t)
